@@ -75,7 +75,7 @@ KeysWithKid == [i \in 1..Len(AllKeys) |-> [AllKeys[i] EXCEPT !.kid = Kid(i)]]
 \* bykid = 1: every thread looks its keys up by kid in the shared keyring from its callbacks, at every call;
 \* bykid = 2: it walks the shared keyring by index (jwks_item_count / jwks_item_get) and picks the key by kid
 Script(p, rep) == << OpsOp(p), LoadOp(KeysWithKid),
-                     [op |-> "Threads", ring |-> 0, iters |-> Iters, skew |-> 1, rep |-> rep, bykid |-> rep % 3, specs |-> Specs(p)] >>
+                     [op |-> "Threads", ring |-> 0, iters |-> Iters, skew |-> 1, rep |-> rep, bykid |-> rep % 3, parfirst |-> (rep \div 3) % 2, specs |-> Specs(p)] >>
 Emit == (\A t \in T : tpc[t] = 0) =>
           \A p \in Providers : \A rep \in 1..(IF Tier = "quick" THEN 6 ELSE 30) : PrintT(<<"SCRIPT", ToJson(Script(p, rep))>>)
 =============================================================================
